@@ -30,8 +30,8 @@ PROP = dict(
           'non-trivial = record with count >= 2 (its count field already '
           'differs from the one-element array); distinct by hash of (codec, '
           'variant, array contents)'),
-    quick=dict(configs=['asan', 'rel'], cases=600000, maxlen=200),
-    thorough=dict(configs=['asan', 'rel'], cases=4000000, maxlen=300,
+    quick=dict(configs=['asan', 'rel', 'native'], cases=600000, maxlen=200),
+    thorough=dict(configs=['asan', 'rel', 'native'], cases=4000000, maxlen=300,
                   fuzz_s=120, setmax=1 << 23),
     case_timeout=30,
     required_classes=[
